@@ -54,3 +54,24 @@ func VerifDump(s *Server) string {
 	}
 	return strings.Join(gs, ";")
 }
+
+// VerifClear removes every registration (through the server's own DEL events) and waits until it is done.
+func VerifClear(s *Server) {
+	VerifSync(s)
+	type pair struct {
+		seid uint64
+		urr  uint32
+	}
+	var ps []pair
+	for _, g := range s.perioList {
+		for seid, us := range g.urrids {
+			for u := range us {
+				ps = append(ps, pair{seid, u})
+			}
+		}
+	}
+	for _, p := range ps {
+		s.DelPeriodReportTimer(p.seid, p.urr)
+	}
+	VerifSync(s)
+}
